@@ -252,6 +252,7 @@ void do_log(Ctx &c, int thr, const sim::Op &op) {
     int &k = c.kctr[thr];
     int level = (int)(op.a % 6) + 1;
     int shape = (int)(op.b % 5);
+    int form = (int)((op.a / 6) % 4); // 0 AWS_LOGF(level variable), 1 AWS_LOGF(conditional expression), 2 AWS_LOGF_<LEVEL>, 3 get_conditional + AWS_LOGUF
     // subject: general, I/O, or an id nobody registered (rendered as "Unknown")
     static const aws_log_subject_t subjects[] = {AWS_LS_COMMON_GENERAL, AWS_LS_COMMON_IO, (aws_log_subject_t)(AWS_LS_COMMON_GENERAL + 900)};
     int si = (int)((op.b / 5) % (3 + kNumCustom));
@@ -281,12 +282,42 @@ void do_log(Ctx &c, int thr, const sim::Op &op) {
     c.current[sim::self()] = &call;
     sim::note(sim::PK_HARNESS, nullptr, 600 + level);
     std::string extra = body + "TRAILING-BYTES-NOT-TO-BE-PRINTED";
-    switch (shape) {
-        case 0: AWS_LOGF((enum aws_log_level)level, subject, "%s", full.c_str()); break;
-        case 1: AWS_LOGF((enum aws_log_level)level, subject, "M%d.%d|%s", thr, k, body.c_str()); break;
-        case 2: AWS_LOGF((enum aws_log_level)level, subject, "M%d.%d|%.*s", thr, k, (int)len, extra.c_str()); break;
-        case 3: AWS_LOGF((enum aws_log_level)level, subject, "M%d.%d|%zu|%s", thr, k, len, body.c_str()); break;
-        case 4: AWS_LOGF((enum aws_log_level)level, subject, "M%d.%d|100%%|%s", thr, k, body.c_str()); break;
+    // the five format shapes, through one of four ways of making the call (all of them documented in logging.h)
+#define C14_SHAPES(CALL)                                                                                  \
+    switch (shape) {                                                                                      \
+        case 0: CALL("%s", full.c_str()); break;                                                          \
+        case 1: CALL("M%d.%d|%s", thr, k, body.c_str()); break;                                           \
+        case 2: CALL("M%d.%d|%.*s", thr, k, (int)len, extra.c_str()); break;                              \
+        case 3: CALL("M%d.%d|%zu|%s", thr, k, len, body.c_str()); break;                                  \
+        case 4: CALL("M%d.%d|100%%|%s", thr, k, body.c_str()); break;                                     \
+    }
+#define C14_PLAIN(...) AWS_LOGF((enum aws_log_level)level, subject, __VA_ARGS__)
+#define C14_COND(...) AWS_LOGF(first ? la : lb, subject, __VA_ARGS__)
+#define C14_PER_LEVEL(...)                                                                                \
+    switch (level) {                                                                                      \
+        case AWS_LL_FATAL: AWS_LOGF_FATAL(subject, __VA_ARGS__); break;                                   \
+        case AWS_LL_ERROR: AWS_LOGF_ERROR(subject, __VA_ARGS__); break;                                   \
+        case AWS_LL_WARN: AWS_LOGF_WARN(subject, __VA_ARGS__); break;                                     \
+        case AWS_LL_INFO: AWS_LOGF_INFO(subject, __VA_ARGS__); break;                                     \
+        case AWS_LL_DEBUG: AWS_LOGF_DEBUG(subject, __VA_ARGS__); break;                                   \
+        default: AWS_LOGF_TRACE(subject, __VA_ARGS__); break;                                             \
+    }
+#define C14_UNCOND(...)                                                                                   \
+    do {                                                                                                  \
+        struct aws_logger *lg = aws_logger_get_conditional(subject, (enum aws_log_level)level);           \
+        if (lg) AWS_LOGUF(lg, (enum aws_log_level)level, subject, __VA_ARGS__)                            \
+    } while (0)
+    switch (form) {
+        case 1: { // the level argument is a conditional expression (lower precedence than the macro's comparison)
+            bool first = ((uint64_t)op.d & 1) != 0;
+            enum aws_log_level la = first ? (enum aws_log_level)level : AWS_LL_FATAL, lb = first ? AWS_LL_TRACE : (enum aws_log_level)level;
+            sim::probe("log_call_level_is_conditional_expression");
+            C14_SHAPES(C14_COND)
+            break;
+        }
+        case 2: sim::probe("log_call_per_level_macro"); C14_SHAPES(C14_PER_LEVEL) break;
+        case 3: sim::probe("log_call_get_conditional_then_unconditional_macro"); C14_SHAPES(C14_UNCOND) break;
+        default: C14_SHAPES(C14_PLAIN)
     }
     c.current[sim::self()] = outer;
     call.returned = true;
@@ -595,7 +626,7 @@ void gen(uint64_t seed, int tier, sim::Plan &p) {
             sim::Op op;
             op.thr = t;
             op.kind = OP_LOG;
-            op.a = r.range(0, 5);
+            op.a = r.range(0, 5) + 6 * (r.chance(0.7) ? 0 : r.range(1, 3));
             op.b = r.range(0, 4) + 5 * (r.chance(0.6) ? 0 : r.range(1, 2 + kNumCustom));
             uint64_t k = r.below(100);
             if (k < 10) op.c = 0;
@@ -651,7 +682,11 @@ std::string op_text(const sim::Op &op) {
     char b[200];
     static const char *sh[] = {"\"%s\"", "\"M%d.%d|%s\"", "\"M%d.%d|%.*s\"", "\"M%d.%d|%zu|%s\"", "\"M%d.%d|100%%|%s\""};
     switch (op.kind) {
-        case OP_LOG: snprintf(b, sizeof b, "T%d: AWS_LOGF(%s, format %s, body of %lld bytes)", op.thr, kLevel[op.a % 6 + 1], sh[op.b % 5], (long long)op.c); break;
+        case OP_LOG: {
+            static const char *fm[] = {"AWS_LOGF", "AWS_LOGF with `c ? l1 : l2` as level argument,", "AWS_LOGF_<LEVEL>", "aws_logger_get_conditional + AWS_LOGUF"};
+            snprintf(b, sizeof b, "T%d: %s(%s, format %s, body of %lld bytes)", op.thr, fm[(op.a / 6) % 4], kLevel[op.a % 6 + 1], sh[op.b % 5], (long long)op.c);
+            break;
+        }
         case OP_SETLEVEL: snprintf(b, sizeof b, "controller: aws_logger_set_log_level(%s)", kLevel[op.a % 7]); break;
         case OP_SLEEP: snprintf(b, sizeof b, "T%d: sleep(%lld ns virtual)", op.thr, (long long)op.a); break;
         case OP_YIELD: snprintf(b, sizeof b, "T%d: yield", op.thr); break;
